@@ -148,8 +148,10 @@ def ptype(t: ir.PType):
     return cls(t.name, enc, unit=t.unit, epoch=t.epoch, offset_from=t.offset_from)
 
 
-def definition(d: ir.Doc, ns=None, prefix="xtce"):
-    """Assemble an XtcePacketDefinition from objects (one object per name, inheritors back-populated as from_xtce does)."""
+def definition(d: ir.Doc, ns=None, prefix="xtce", listed="all"):
+    """Assemble an XtcePacketDefinition from objects (one object per name, inheritors back-populated as from_xtce does).
+    listed: which containers are handed over in container_set - "all", or "top-level": only those that no other container nests
+    (nested ones are then reachable through entry lists only), in reversed order"""
     from space_packet_parser.xtce import containers as SC
     from space_packet_parser.xtce import parameters as P
     from space_packet_parser.xtce.definitions import XtcePacketDefinition
@@ -178,6 +180,10 @@ def definition(d: ir.Doc, ns=None, prefix="xtce"):
     kw = {}
     if ns is not None:
         kw["ns"] = ns
-    return XtcePacketDefinition(container_set=[built[c.name] for c in d.containers], xtce_ns_prefix=prefix,
+    handed = [built[c.name] for c in d.containers]
+    if listed == "top-level":
+        nested = {n for c in d.containers for k, n in c.entries if k == "c"}
+        handed = [built[c.name] for c in reversed(d.containers) if c.name not in nested]
+    return XtcePacketDefinition(container_set=handed, xtce_ns_prefix=prefix,
                                 root_container_name=d.root, space_system_name=d.system_name, date=d.date,
                                 validation_status=d.validation, xtce_version=d.version, **kw)
